@@ -138,10 +138,11 @@ def assigned_after(f, node):
     return out
 
 
-def reach(f, start, target_pred, avoid=(), assume=(), from_elem=None, akeys=None):
+def reach(f, start, target_pred, avoid=(), assume=(), from_elem=None, akeys=None, forced=()):
     """Is a block satisfying target_pred reachable from block `start` without passing through a block in
     `avoid`, on a path consistent with the stable conditions?  assume: iterable of (text, truth).
     akeys: the lvalue keys considered unstable (default: everything assigned anywhere in the function).
+    forced: condition texts that are stable whatever the function assigns (whole-program constants).
     Returns the witness path (list of block ids) or None."""
     if akeys is None:
         akeys = assigned_keys(f)
@@ -151,12 +152,12 @@ def reach(f, start, target_pred, avoid=(), assume=(), from_elem=None, akeys=None
     avoid = set(avoid)
     while stack:
         b, facts, path = stack.pop()
-        if (b, facts) in seen:
+        if (b, facts, len(path) > 1) in seen:
             continue
-        seen.add((b, facts))
+        seen.add((b, facts, len(path) > 1))
         if b != start and b in avoid:
             continue
-        if b != start and target_pred(b):
+        if (b != start or len(path) > 1) and target_pred(b):
             return list(path)
         blk = f.blocks[b]
         succs = blk["s"]
@@ -171,6 +172,10 @@ def reach(f, start, target_pred, avoid=(), assume=(), from_elem=None, akeys=None
                 add = []
                 for atom, t in edge_facts(cond, i == 0):
                     txt = stable_text(f, atom, akeys)
+                    if txt is None and forced:
+                        nt = norm_text(atom)
+                        if nt in forced:
+                            txt = nt        # whole-program constant: stable whatever happens in this function
                     if txt is None:
                         continue
                     if (txt, not t) in facts:
